@@ -21,13 +21,13 @@ CLAIMED = {
 }
 
 CLAIMED['C01'] = {
-    'technique': 'Rocq proof (interval-evaluator soundness, serialisation/decoding) + correspondence (tie B)',
+    'technique': 'Rocq proof (interval-evaluator soundness incl. the normal CDF, serialisation/decoding, pure-Python evaluator regenerated from source: tie A) + correspondence (tie B)',
     'text': ('Deep embedding of the expression language with mathematical semantics evalX (Coq reals). Proved in Rocq for all trees, '
              'environments and sharings: the executable interval evaluator encloses evalX (T01f) with no hypothesis left on the normal CDF (Phi defined as 1/2 + RInt npdf 0 x; its series enclosure PhiI_series proved, T01f_PhiI_series_correct / T01f_evalI_sound_concrete), the differ is sound, and (Proofs/SigP.v) '
              'decoding the emitted signature yields the index-resolved tree whatever the sharing. Tied to the code on every run by streams: '
              'engine value per row and pure-Python value vs proved enclosures (exact dyadic exchange, membership decided in Coq), '
              'get_signature bytes and IdManager tables vs the models, 1-3 formulas side by side, shared sub-formulas, a history of a '
-             'failing then a valid evaluation.'),
+             'failing then a valid evaluation, histories of several BIOGEME objects / separate evaluations / a function created once that share one sub-formula object (stream history_models: simulate, get_value_c with and without a dictionary, create_function, calculate_likelihood, two value sets), constants with long mantissas and the constants -1 / -2 side by side, LogLogit through the pure-Python evaluator with unavailable alternatives.'),
     'note': KERNEL + 'the compiled engine is external: its operator semantics are MODELLED (Model/EvalX.v) and only sampled; IEEE rounding is '
             'covered by the 2^-30 relative tolerance; normal CDF: the enclosure is proved (Proofs/PhiP.v) without the Gaussian integral, so 0 <= Phi <= 1 is not proved and enclosures are not clipped to [0,1]; that the normal CDF of the engine and of scipy is this Phi is sampled (stream phi_grid); real-number axioms of the standard '
             'library, classic, functional extensionality, primitive 63-bit integers (Interval/Bignums).',
@@ -38,7 +38,7 @@ CLAIMED['C03'] = {
              'signature; theorems (Proofs/IdMgrP.v): numbering is a canonical sorted bijection independent of the order in which parameters '
              'are met, equivariant under injective renamings, values follow names; evalX invariant under renaming. Streams on every run: '
              'IdManager tables and signatures vs the model, and every formula under identity / random / order-reversing renamings with bounds '
-             'and partial dictionaries (values by name, likelihood by position, bounds by name, change_init_values, fixed untouched).'),
+             'and partial dictionaries (values by name, likelihood by position, bounds by name, change_init_values, fixed untouched). Values follow names also over histories of models sharing a sub-formula (stream history_models, shared with C01).'),
     'note': KERNEL + 'IdManager modelled by hand and tied by behaviour; the clause about estimates up to optimiser tolerance is partial (external optimiser).',
 }
 
